@@ -21,8 +21,20 @@ func main() {
 	selftest := flag.Bool("selftest", false, "run the checker's own fixtures")
 	seed := flag.String("seed", "", "directory of a seeded change (patch.diff): evaluate -p on the tree with the change applied in memory")
 	seedAll := flag.Bool("seedall", false, "evaluate every seeded change under /verif/seeded with its property and print the kill matrix")
+	doc := flag.Bool("doc", false, "print the per-property documentation (markdown) from the rule registry")
 	flag.Parse()
 	rules.Finalize()
+	if *doc {
+		for _, id := range rules.IDs() {
+			p := rules.Get(id)
+			fmt.Printf("### %s — level %s\n\n**Decides.** %s\n\n**Not covered.** %s\n\n", id, p.Level, p.Explanation, p.NotCovered)
+			if len(p.Assumptions) > 0 {
+				fmt.Printf("**Assumes.** %s\n\n", strings.Join(p.Assumptions, "; "))
+			}
+			fmt.Printf("Packages loaded: `%s`\n\n", strings.Join(p.Patterns, "`, `"))
+		}
+		return
+	}
 	if *seedAll {
 		os.Exit(rules.SeedMatrix())
 	}
